@@ -32,7 +32,7 @@ class C08(Prop):
                 "NV.C08.load_order_tie", "NV.C08.clone_order_tie", "NV.C08.find_or_load_order_tie",
                 "NV.C08.hb_remove_order_tie", "NV.C08.present2_order_tie", "NV.C08.flag_bits_tie", "NV.C08.superWalk_clear", "NV.C08.acyclic_redirect", "NV.C08.init_inv",
                 "NV.C08.objects_order_tie", "NV.C08.hb_ops_tie", "NV.C08.hash_prefix_tie", "NV.C08.add_action_cond_tie",
-                "NV.C08.living_command_cond_tie", "NV.C08.move_cond_tie", "NV.C08.destruct_cond_tie", "NV.C08.inherit_order_tie",
+                "NV.C08.living_command_cond_tie", "NV.C08.move_cond_tie", "NV.C08.destruct_cond_tie", "NV.C08.inherit_order_tie", "NV.C08.set_living_order_tie",
                 "NV.C08.move_walk_terminates", "NV.C08.task_no_hang", "NV.C08.no_hang", "NV.C08.objects_filter_sound",
                 "NV.C08.catch_contains_errors", "NV.C08.catch_restores_guards",
                 "NV.C08.absMap_spec", "NV.C08.lookup_refines_read", "NV.C08.enter_refines_insert",
@@ -286,6 +286,12 @@ class C08(Prop):
         # clone_object: does it clear the load-depth counter before it looks the blueprint up?  (the model follows)
         clone_body = body_of("src/simulate.c", r"\nobject_t \*clone_object \(const char \*str1, int num_arg\) \{")
         clone_clears = bool(re.search(r"\n\s*num_objects_this_thread = 0;", clone_body))
+        orders["setLivingOrder"] = order("lib/lpc/object.c", r"\nvoid set_living_name \(object_t \* ob, char \*str\) \{", [
+            ("destructed-return", r"if \(ob->flags & O_DESTRUCTED\)\s*return;"),
+            ("rename-branch", r"if \(ob->living_name\)"),
+            ("remove-old-name", r"remove_living_name \(ob\);"),
+            ("link-at-head", r"\*hl = ob;"),
+            ("set-name", r"ob->living_name = make_shared_string \(str\);")])
         orders["objectsOrder"] = order("lib/lpc/array.c", r"\nf_objects \(void\)\s*\{", [
             ("collect-loop", r"for \(n = 0, ob = obj_list; ob; ob = ob->next_all\)"),
             ("collect", r"tmp\[n\] = ob;"),
